@@ -604,7 +604,7 @@ func cmdCheck(args []string) int {
 			"dead_return_paths":        deadPaths,
 			"undecided":                undecided,
 			"samples":                  samples,
-			"back_ends":                "race of z3 5.1.0, z3 4.8.12 and cvc5 1.0.3 per obligation (first definitive answer wins); thorough: all three run to completion and cross-checked",
+			"back_ends":                "quick: z3 5.1.0 alone for 1 s, then a race of z3 5.1.0, z3 4.8.12 and cvc5 1.0.3 (20 s, first definitive answer wins), undecided queries re-decided with few workers and 60 s; thorough: every query to all three solvers (10 s each), answers cross-checked, rest re-decided by a 60 s race",
 			"contract_files":           relFiles(P.CS.Files, *repo, vd),
 		}}
 	if !*noEvidence {
